@@ -227,6 +227,19 @@ def runOp : P String := do
   | "HPHI" =>
     let x ← pFloat
     pure ("OK " ++ toHex (HP.toFloat (HP.Phi 128 (HP.ofFloat x))))
+  | "SUMQ" =>
+    -- the literal (dict-shaped) model of PlackettLuce._sum_q on a list of (rank, mu) with a given c
+    let c ← pFloat
+    let n ← pNat
+    let ranks ← pMany n pNat
+    let mus ← pMany n pFloat
+    let ts : List (TeamAgg Float) := (ranks.zip mus).map (fun rm => { mu := rm.2, sig2 := 1.0, rank := rm.1, players := [] })
+    pure ("OK " ++ " ".intercalate ((plSumQCode ts c).map toHex))
+  | "RANKDATA" =>
+    -- the literal (loop-shaped) model of models/common.py::_rank_data
+    let n ← pNat
+    let vs ← pMany n pFloat
+    pure ("OK " ++ " ".intercalate ((rankDataCode vs).map toString))
   | "PWIN" =>
     let beta ← pFloat
     let teams ← pTeams
